@@ -3342,10 +3342,12 @@ func UnmarshalPathAttributes(values []*api.Attribute) ([]bgp.PathAttributeInterf
 
 // MarshalSRBSID marshals SR Policy Binding SID Sub TLV structure
 func MarshalSRBSID(bsid *bgp.TunnelEncapSubTLVSRBSID) (*api.SRBindingSID, error) {
-	s := &api.SRBindingSID{
-		Sid: make([]byte, len(bsid.BSID.Value)),
+	s := &api.SRBindingSID{}
+	// The Binding SID value is optional (a sub-TLV of length 2 carries none)
+	if bsid.BSID != nil {
+		s.Sid = make([]byte, len(bsid.BSID.Value))
+		copy(s.Sid, bsid.BSID.Value)
 	}
-	copy(s.Sid, bsid.BSID.Value)
 	s.SFlag = bsid.Flags&0x80 == 0x80
 	s.IFlag = bsid.Flags&0x40 == 0x40
 	return s, nil
@@ -3358,6 +3360,10 @@ func UnmarshalSRBSID(bsid *api.TunnelEncapSubTLVSRBindingSID) (bgp.TunnelEncapSu
 		b, err := bgp.NewBSID(v.SrBindingSid.Sid)
 		if err != nil {
 			return nil, err
+		}
+		if b == nil {
+			// no Binding SID value: the form the decoder gives a sub-TLV of length 2
+			b = &bgp.BSID{Value: []byte{}}
 		}
 		flags := uint8(0x0)
 		if v.SrBindingSid.SFlag {
